@@ -722,6 +722,21 @@ func (c *Ctx) callOrderInsensitive(fn *ssa.Function, call *ssa.Call, li loopInfo
 	}
 	f := cc.StaticCallee()
 	if f == nil {
+		// a function value: every repository function it can be (closed-world edges of this site) must compute its result
+		// from its argument alone — pure, or hashing with an object it resets before every use
+		ntargets := 0
+		for _, e := range c.G.Out[fn] {
+			if e.Site != ssa.Instruction(call) || e.Callee == nil {
+				continue
+			}
+			ntargets++
+			if ok, why := c.perCallEffectsOnly(e.Callee); !ok {
+				return false, "call of a function value that can be " + core.FuncName(e.Callee) + ": " + why
+			}
+		}
+		if ntargets > 0 {
+			return true, "function value whose every target computes from its argument alone"
+		}
 		return false, "call of a function value with unknown effect"
 	}
 	if isEntryCtor(f) {
@@ -1175,4 +1190,76 @@ func (c *Ctx) checkBuilderErrors() {
 		}
 	}
 	r.Floor("D4", n, 15)
+}
+
+// perCallEffectsOnly: t keeps nothing from one call to the next: it writes no captured variable, global or heap object,
+// and every stateful hash object it uses (Write/Sum on an interface value) is Reset in t before the first Write.
+func (c *Ctx) perCallEffectsOnly(t *ssa.Function) (bool, string) {
+	if t == nil || len(t.Blocks) == 0 {
+		return false, "no body"
+	}
+	if !c.isPure(t, 0) {
+		return false, "writes state that outlives the call"
+	}
+	// the object a method is invoked on: a captured variable is reloaded at every use
+	obj := func(v ssa.Value) ssa.Value {
+		if u, ok := v.(*ssa.UnOp); ok && u.Op == token.MUL {
+			if fv, ok := u.X.(*ssa.FreeVar); ok {
+				return fv
+			}
+		}
+		return v
+	}
+	resets := map[ssa.Value]*ssa.Call{}
+	for _, ci := range core.CallsIn(t) {
+		call, ok := ci.(*ssa.Call)
+		if ok && call.Call.IsInvoke() && call.Call.Method.Name() == "Reset" {
+			resets[obj(call.Call.Value)] = call
+		}
+	}
+	for _, ci := range core.CallsIn(t) {
+		call, ok := ci.(*ssa.Call)
+		if !ok {
+			return false, "defer/go"
+		}
+		cc := call.Common()
+		if _, isB := cc.Value.(*ssa.Builtin); isB {
+			continue
+		}
+		if cc.IsInvoke() {
+			switch cc.Method.Name() {
+			case "Reset":
+				continue
+			case "Write", "Sum", "Sum64", "Sum32":
+				rc := resets[obj(cc.Value)]
+				if rc == nil || !(rc.Block() == call.Block() && rc.Pos() < call.Pos() || rc.Block() != call.Block() && rc.Block().Dominates(call.Block())) {
+					return false, "feeds a hash object kept between calls without resetting it first (the result depends on the names hashed before)"
+				}
+				continue
+			}
+			if pureMethodNames[cc.Method.Name()] {
+				continue
+			}
+			return false, "dynamic call " + cc.Method.Name()
+		}
+		f := cc.StaticCallee()
+		if f == nil {
+			return false, "nested function value"
+		}
+		if _, isRepo := c.P.PkgOf(f); isRepo {
+			if !c.isPure(f, 1) {
+				return false, "calls " + f.Name()
+			}
+			continue
+		}
+		// dependency / library functions applied to the argument: hashing, encoding, conversions
+		if f.Pkg != nil {
+			switch f.Pkg.Pkg.Path() {
+			case "encoding/binary", "strings", "strconv", "fmt", "bytes", "math/bits", "unicode/utf8", "github.com/spaolacci/murmur3":
+				continue
+			}
+		}
+		return false, "external call " + core.CalleeName(call)
+	}
+	return true, ""
 }
